@@ -16,6 +16,7 @@ let hilo_of_z (x : z) : int * int =
     List.iteri (fun i b -> if b then (if i < 32 then lo := !lo lor (1 lsl i) else if i < 64 then hi := !hi lor (1 lsl (i - 32)) else hi := -1)) (bits p);
     (!hi, !lo)
 let () =
+  let no = ref 0 in
   let n = ref 0 and bad = ref 0 and ns = ref 0 and ne = ref 0 and nrej = ref 0 and nd = ref 0 and nlong = ref 0 in
   let diff l m = incr bad; if !bad <= 20 then Printf.printf "DIFF impl=[%s] model=[%s]\n" l m in
   iter_lines (fun l ->
@@ -45,6 +46,16 @@ let () =
         let m = Printf.sprintf "%d %d %d %d" mh ml (int_of_z len) nxt in
         if int_of_z len = 8 then incr nlong;
         if m <> String.concat " " tail then diff l m
+      | "O" :: hdr :: ps :: tot :: rest ->
+        incr n; incr no;
+        let k = int_of_string tot in
+        let bl = List.map (fun s -> z_of_int (int_of_string s)) (List.filteri (fun i _ -> i < k) rest) in
+        let tail = List.filteri (fun i _ -> i > k) rest in
+        let m = (match c_finish_obu bl (nat_of_int (int_of_string hdr)) (z_of_int (int_of_string ps)) with
+                 | None -> "-1"
+                 | Some (d, lf) -> String.concat " " ("0" :: string_of_int (int_of_z lf) :: List.map (fun b -> string_of_int (int_of_z b)) d)) in
+        let impl = (match tail with "-1" :: _ -> "-1" | _ -> String.concat " " tail) in
+        if m <> impl then diff (String.sub l 0 (min 200 (String.length l))) (String.sub m 0 (min 200 (String.length m)))
       | _ -> ()
     end);
-  Printf.printf "DONE n=%d bad=%d size=%d encode=%d rejected=%d decode=%d decode_len8=%d\n" !n !bad !ns !ne !nrej !nd !nlong
+  Printf.printf "DONE n=%d bad=%d size=%d encode=%d rejected=%d decode=%d decode_len8=%d obu=%d\n" !n !bad !ns !ne !nrej !nd !nlong !no
